@@ -595,7 +595,9 @@ class Ctx:
       # run on all-zero inputs agrees with almost anything).  One extra, short query; the plain model is the fall-back.
       try:
         vs = [c for k, (kind, c) in self.vars.items() if kind in ("int", "real")][:14]
-        if vs:
+        # (not when a contract stub introduced existential variables: their model values are not the true exp/sqrt/cos
+        # values, and generic inputs would make every observation depend on them)
+        if vs and not any(kind == "aux" for kind, _ in self.vars.values()):
           gen = z3.Solver() if (self.mixed or any("int" in c for _, c in self.pc)) else z3.Tactic("qfnra-nlsat").solver()
           gen.set("timeout", 1500)
           for e, _ in self.pc: gen.add(e)
